@@ -113,6 +113,8 @@ pub struct MacroInfo {
     /// (--clang-macro-fallback), and whether this macro itself is such a macro
     pub untyped_fb: Option<i64>,
     pub fb_direct: bool,
+    /// an operand of unsigned type takes part, directly or through a referenced macro
+    pub involves_unsigned: bool,
     /// float precision flags (f32 operands, long double operands, arithmetic)
     pub fprec: (bool, bool, bool),
     pub bytes: Vec<u8>,
@@ -304,6 +306,7 @@ impl Header {
         let mut int_untyped: Vec<Option<i64>> = vec![];
         let mut int_redefined: Vec<bool> = vec![];
         let mut int_untyped_fb: Vec<Option<i64>> = vec![];
+        let mut int_unsigned: Vec<bool> = vec![];
         let mut f_names: Vec<String> = vec![];
         let mut f_prec: Vec<(bool, bool, bool)> = vec![];
         let mut s_names: Vec<String> = vec![];
@@ -313,7 +316,7 @@ impl Header {
         let mut macro_text = String::new();
         for (i, m) in self.macros.iter().enumerate() {
             let name = names[i].clone();
-            let mut info = MacroInfo { name: name.clone(), kind: "none", model: None, untyped: None, untyped_fb: None, fb_direct: false, fprec: (false, false, false), bytes: vec![], features: BTreeSet::new(), redefined: false };
+            let mut info = MacroInfo { name: name.clone(), kind: "none", model: None, untyped: None, untyped_fb: None, fb_direct: false, involves_unsigned: false, fprec: (false, false, false), bytes: vec![], features: BTreeSet::new(), redefined: false };
             let body = match &m.body {
                 MacroBody::Int(e) => {
                     let v = eval(e, &int_vals).expect("normalised");
@@ -331,6 +334,8 @@ impl Header {
                     let mut refs = vec![];
                     ref_indices(e, int_names.len(), &mut refs);
                     info.redefined = refs.iter().any(|k| int_redefined[*k]);
+                    info.involves_unsigned = has_unsigned_operand(e) || refs.iter().any(|k| int_unsigned[*k]);
+                    int_unsigned.push(info.involves_unsigned);
                     int_names.push(name.clone());
                     int_untyped.push(u);
                     if let Some(r) = &m.redefined {
